@@ -22,8 +22,14 @@ class Ref(Expression):
     def __str__(self):
         return self.name
 
+    @property
+    def is_super(self):
+        # A "super.X" reference means the parent of the grammar that contains
+        # the reference, whichever grammar we are currently parsing through.
+        return self.resolved.startswith('_super_ctx.')
+
     def _compile(self, out, flags):
-        if flags.uses_context and not self.is_local:
+        if flags.uses_context and not self.is_local and not self.is_super:
             func = Code(f'_ctx.{self.resolved}')
         else:
             func = Code(self.resolved)
